@@ -146,6 +146,8 @@ def gen_item(ch, pool, ctx, opts, depth, pos):
     if (opts.bitmaps and opts.operators and not ctx.in_204 and not ctx.in_numop and not ctx.in_rep
             and ctx.min_plain >= 1 and ctx.budget >= 6 and not ctx.in_208):
         choices.append((opts.w_bitmap, 'bitmap'))
+        if opts.w_204:
+            choices.append((1, 'qa_in_204'))
     if (opts.bitmaps and opts.operators and opts.bitmap_in_rep and depth == 0 and not ctx.in_rep and not ctx.in_204
             and not ctx.in_numop and not ctx.in_208 and ctx.epoch_len is None and not ctx.stored_bitmap
             and ctx.budget >= 10 and pool.class33):
@@ -478,6 +480,39 @@ def g_bitmap(ch, pool, ctx, opts, depth):
     return out
 
 
+def g_qa_in_204(ch, pool, ctx, opts, depth):
+    """A whole quality-information block inside an open 204YYY scope: the class 31 descriptors of the bitmap
+    definition carry no associated field, the class 33 values do.  Only as the first block of an epoch, and only
+    222000 (a marker operator under 204 is the recorded finding K1)."""
+    if ctx.epoch_len is not None or ctx.stored_bitmap or not pool.class33:
+        return g_elem(ch, pool, ctx, opts, depth)
+    y = ch.int(1, 8)
+    k = ch.int(1, 2)
+    c = ctx.child()
+    c.in_204 = 1
+    elems = [_pick_element(ch, pool, c, opts) for _ in range(k)]
+    ctx.min_plain += 1 + k
+    # the bitmap reaches back over the elements of the scope only: quality information about the scope's own
+    # 031021 would make that significance an attribute of its own attribute's associated field (a cycle in any
+    # hierarchical view)
+    n = ch.int(1, k)
+    # (a bitmap whose length is data would be drawn over everything in front of it: fixed length here)
+    d = _bitmap_def(ch, ctx, n, None, 0, ch.weighted([(2, 'fixed'), (1, 'list' if opts.plain_bitmap_list else 'fixed')]))
+    blk = [204000 + y, 31021] + elems + [222000] + d + [101000, 31001, ch.choice(pool.class33), 204000]
+    ctx.epoch_len = n
+    ctx.epoch_delayed = (d[0] == 101000)
+    ctx.stored_bitmap = False
+    ctx.hint_marks.append(('bitmap_n', n))
+    ctx.min_plain += 1
+    _reserve(ctx, len(blk))
+    ctx.features.update(['bitmap', '204', 'bitmap_inside_204'])
+    if ch.bool(1, 3):
+        blk.append(235000)
+        ctx.epoch_len = None
+        ctx.epoch_delayed = False
+    return blk
+
+
 def g_rep_bitmap(ch, pool, ctx, opts, depth):
     """A replication whose body opens and closes a whole back-reference epoch: k elements, an
     operator block over n <= k of them, 235000."""
@@ -508,7 +543,7 @@ def g_rep_bitmap(ch, pool, ctx, opts, depth):
 
 
 _GEN = {'rep_bitmap': g_rep_bitmap, 'elem': g_elem, 'seq': g_seq, 'fixed': g_fixed, 'delayed': g_delayed, '201': g_201, '202': g_202,
-        '207': g_207, '208': g_208, '204': g_204, '205': g_205, '206': g_206, '203': g_203, '221': g_221,
+        '207': g_207, '208': g_208, '204': g_204, '205': g_205, '206': g_206, '203': g_203, '221': g_221, 'qa_in_204': g_qa_in_204,
         'bitmap': g_bitmap}
 
 
